@@ -75,7 +75,8 @@ int main(void) {
   { int keep = ftag == TAG(l1, t1);
     CHECK(c->f1.f1 == (uint64_t)keep, "the polygon is loaded iff its tag is in the filter");
     if (keep) { Poly* p = ((Poly**)c->f1.f2)[0]; double* q = (double*)p->f1.f2; CHECK(p->f0 == TAG(l1, t1) && p->f1.f1 == 3 && q[0] == 1e-3 * (double)x[0] && q[5] == 1e-3 * (double)y[2], "and is the polygon a full load gives"); }
-    CHECK(c->f5.f1 == 1 && ((Label**)c->f5.f2)[0]->f0 == TAG(l2, t2), "labels are not filtered"); }
+    CHECK(c->f5.f1 == 1 && ((Label**)c->f5.f2)[0]->f0 == TAG(l2, t2), "labels are not filtered");
+    { Label* l = ((Label**)c->f5.f2)[0]; CHECK(l->f1 && l->f1[0] == 't' && VXD(l->f2) == 1e-3 * (double)x[3] && VYD(l->f2) == 1e-3 * (double)y[3], "and the label that follows the (kept or dropped) shape is the label a full load gives: text and position"); } }
 #elif OP == 4
   { uint8_t before[110]; uint64_t n = vf_files[0].len; CHECK(n <= 110, "skeleton size"); for (uint64_t i = 0; i < 110; i++) before[i] = vf_files[0].data[i];
     struct S_struct_tm nt = {0}; nt.f5 = (uint32_t)nd_range(0, 200); nt.f4 = (uint32_t)nd_range(0, 11); nt.f3 = (uint32_t)nd_range(1, 31); nt.f2 = (uint32_t)nd_range(0, 23); nt.f1 = (uint32_t)nd_range(0, 59); nt.f0 = (uint32_t)nd_range(0, 59);
